@@ -77,7 +77,8 @@ def specs(tier):
         ("ring5", "bal", "annealed"),
     ]
     big = [("grid6", "mix", "from_path"), ("tree7", "mix", "from_path"),
-           ("tree7", "bal", "optimizer")]
+           ("tree7", "bal", "optimizer"),
+           ("bigchain4", "bal", "from_path"), ("bighyper4", "comb", "tracked")]
     if tier == "quick":
         return ([(s, 2, "full") for s in quick + big + noninitial]
                 + [(s, 3, "core") for s in deep + noninitial[:3]])
@@ -107,6 +108,8 @@ def units(tier, seed):
 def run_unit(unit, which):
     spec, depth, level, tier, seed = unit
     res = UnitResult()
+    if which == "value" and spec[0].startswith("big"):
+        return res  # huge dimensions: cost invariant only (C04)
     inv = TH.value_violations if which == "value" else TH.cost_violations
 
     def check(h, obj):
@@ -158,7 +161,9 @@ FAMILY = {
     "forest_": "reconf", "anneal_": "anneal", "anneal": "anneal",
     "temper_": "anneal", "slice_reconf_": "slice_reconf",
     "slice_reconf_forest_": "slice_reconf", "sort_": "sort",
-    "reset_inds": "sort", "copy": "copy",
+    "reset_inds": "sort", "copy": "copy", "forest": "reconf",
+    "temper": "anneal", "slice_reconf": "slice_reconf",
+    "reconf_obj_": "reconf", "unslice_rand": "unslice", "project": "project",
 }
 
 OBSERVERS = {"contract", "contract_stats", "contract_stats_force",
